@@ -74,10 +74,35 @@ def origin_attr(e, known):
             return None
 
 
+def param_root(e, known):
+    """parameter an expression is (a view / alias of), when it is one: `x`, `xp.atleast_2d(x)`, `x[:, 1:]`"""
+    while True:
+        if isinstance(e, ast.Attribute) and e.attr in ("T", "mT", "real"):
+            e = e.value
+        elif isinstance(e, ast.Subscript):
+            e = e.value
+        elif isinstance(e, ast.Name):
+            return known.get(e.id)
+        elif isinstance(e, ast.Call) and _callee_name(e)[0] in ALIAS_CALLS:
+            name, recv = _callee_name(e)
+            if e.args:
+                e = e.args[0]
+            elif recv is not None:
+                e = recv
+            else:
+                return None
+        else:
+            return None
+
+
 class Ownership:
     def __init__(self, func_node, params):
         self.func = func_node
         self.env = {p: BORROWED for p in params}
+        self.proot = {p: p for p in params}  # local name -> parameter it aliases, when known
+        self._cur_proot = None
+        self.sink_root = {}  # index in self.sinks -> parameter the written array aliases (at that point), when known
+        self.calls = []  # (callee name, receiver is a plain name, [status of positional args], {keyword: status})
         self.sinks = []  # (node, description, status, name)
         self.origin = {}  # local name -> attribute it was loaded from (self.log_w -> "log_w"), when known
         self._cur_origin = None
@@ -129,11 +154,16 @@ class Ownership:
         # arithmetic, comparisons, literals, comprehensions: new objects
         return OWNED
 
+    def _sink(self, rec, expr):
+        self.sinks.append(rec)
+        self.sink_root[len(self.sinks) - 1] = param_root(expr, self.proot)
+
     # ------------------------------------------------------------ statements
     def bind(self, target, st):
         if isinstance(target, ast.Name):
             self.env[target.id] = st
             self.origin[target.id] = self._cur_origin if st == BATTR else None
+            self.proot[target.id] = self._cur_proot if st == BORROWED else None
         elif isinstance(target, (ast.Tuple, ast.List)):
             for t in target.elts:
                 self.bind(t, st)
@@ -143,10 +173,12 @@ class Ownership:
     def scan_sinks(self, node):
         for n in ast.walk(node) if not isinstance(node, list) else [x for s in node for x in ast.walk(s)]:
             if isinstance(n, ast.Call):
-                name, _ = _callee_name(n)
+                name, recv_ = _callee_name(n)
+                if name is not None and (recv_ is None or isinstance(recv_, ast.Name)):
+                    self.calls.append((name, recv_.id if recv_ is not None else None, [self.status(a) for a in n.args], {k.arg: self.status(k.value) for k in n.keywords if k.arg}))
                 if name == "update_at_indices" and n.args:
                     a = n.args[0]
-                    self.sinks.append((n, f"update_at_indices({ast.unparse(a)[:40]}, ...)", self.status(a), ast.unparse(a)[:40]))
+                    self._sink((n, f"update_at_indices({ast.unparse(a)[:40]}, ...)", self.status(a), ast.unparse(a)[:40]), a)
                 elif name is not None and isinstance(n.func, ast.Attribute) and (
                         name in INPLACE_METHODS or (name.endswith("_") and not name.startswith("_") and name not in NOT_DATA)):
                     r = n.func.value
@@ -155,17 +187,17 @@ class Ownership:
                         root = root.value
                     if isinstance(root, ast.Name) and root.id in MODULE_ROOTS:
                         continue  # a library function, not a method of an array
-                    self.sinks.append((n, f"{ast.unparse(r)[:40]}.{name}(...)", self.status(r), ast.unparse(r)[:40]))
+                    self._sink((n, f"{ast.unparse(r)[:40]}.{name}(...)", self.status(r), ast.unparse(r)[:40]), r)
                 for k in n.keywords:
                     if k.arg == "out":
-                        self.sinks.append((n, f"{name}(..., out={ast.unparse(k.value)[:40]})", self.status(k.value), ast.unparse(k.value)[:40]))
+                        self._sink((n, f"{name}(..., out={ast.unparse(k.value)[:40]})", self.status(k.value), ast.unparse(k.value)[:40]), k.value)
 
     def store_sink(self, target, node):
         if isinstance(target, ast.Subscript) and isinstance(target.value, ast.Name):
             idx = target.slice
             if isinstance(idx, ast.Constant) and isinstance(idx.value, str):
                 return  # dictionary key
-            self.sinks.append((node, f"{ast.unparse(target)[:40]} = ...", self.status(target.value), target.value.id))
+            self._sink((node, f"{ast.unparse(target)[:40]} = ...", self.status(target.value), target.value.id), target.value)
 
     def block(self, stmts):
         for s in stmts:
@@ -191,6 +223,7 @@ class Ownership:
             self.scan_sinks(s.value)
             st = self.status(s.value)
             self._cur_origin = origin_attr(s.value, self.origin)
+            self._cur_proot = param_root(s.value, self.proot)
             for t in s.targets:
                 self.store_sink(t, s)
                 self.bind(t, st)
@@ -198,6 +231,8 @@ class Ownership:
             if s.value is not None:
                 self.scan_sinks(s.value)
                 self.store_sink(s.target, s)
+                self._cur_origin = origin_attr(s.value, self.origin)
+                self._cur_proot = param_root(s.value, self.proot)
                 self.bind(s.target, self.status(s.value))
         elif isinstance(s, ast.AugAssign):
             self.scan_sinks(s.value)
@@ -207,11 +242,15 @@ class Ownership:
         elif isinstance(s, ast.If):
             self.scan_sinks(s.test)
             base = dict(self.env)
+            pr0 = dict(self.proot)
             self.block(s.body)
             e1 = self.env
+            pr1 = self.proot
             self.env = dict(base)
+            self.proot = dict(pr0)
             self.block(s.orelse)
             self.env = self._merge([e1, self.env])
+            self.proot = {k: (v if pr1.get(k) == v else None) for k, v in self.proot.items()}
         elif isinstance(s, (ast.For, ast.AsyncFor, ast.While)):
             if isinstance(s, ast.While):
                 self.scan_sinks(s.test)
@@ -219,10 +258,13 @@ class Ownership:
                 self.scan_sinks(s.iter)
             base = dict(self.env)
             n0 = len(self.sinks)
+            n0c = len(self.calls)
             for _ in range(2):
                 if not isinstance(s, ast.While):
+                    self._cur_proot = None
                     self.bind(s.target, BORROWED)
                 del self.sinks[n0:]
+                del self.calls[n0c:]
                 self.block(s.body)
                 self.env = self._merge([base, self.env])
                 base = dict(self.env)
@@ -279,3 +321,17 @@ def analyse(finfo, with_origin: bool = False):
     if with_origin:
         return [(n, d, st, nm, o.origin.get(nm)) for n, d, st, nm in o.sinks]
     return o.sinks
+
+
+def analyse_full(finfo):
+    """The Ownership object of one function after the walk (sinks, recorded call sites, parameter roots)."""
+    node = finfo.node
+    a = node.args
+    params = [x.arg for x in a.posonlyargs + a.args + a.kwonlyargs]
+    if a.vararg:
+        params.append(a.vararg.arg)
+    if a.kwarg:
+        params.append(a.kwarg.arg)
+    o = Ownership(node, params)
+    o.block(node.body)
+    return o
